@@ -368,7 +368,13 @@ pub fn gen_case(r: &mut Prng, big: bool) -> (Case, [u64; 4]) {
         g.case.pre.extend(before);
         // sometimes the operation is made by ANOTHER thread (spawned and joined): what one thread
         // registered must be what every other thread uses afterwards
-        let op = if g.r.chance(1, 8) { Op::OnThread { ops: vec![op] } } else { op };
+        // (every other one of those once more while that thread ENDS, from the destructor of one of its thread-locals)
+        let n = g.case.pre.len();
+        let op = if g.r.chance(1, 8) {
+            if n % 2 == 0 { Op::OnThreadExit { ops: vec![op], late: n % 4 == 0 } } else { Op::OnThread { ops: vec![op] } }
+        } else {
+            op
+        };
         g.case.pre.push(op);
         if want_reg && !g.case.shared.is_empty() && g.r.chance(1, 3) {
             // a kept AST evaluated through exec() as the very next engine call after a registration
@@ -412,7 +418,7 @@ impl Prop for C08 {
                 "`not`, `?:` and prefix/postfix operators inside chains are not generated (C02); mixed associativity at one level is not generated; registered operators never share level 20 with the assignment operators",
                 "built-in operator values come from the engine used as a calculator",
             ],
-            fault_kinds: &["fresh_process", "register_before_first_use"],
+            fault_kinds: &["fresh_process", "register_before_first_use", "thread_teardown"],
             probes: &["adjacent_precedence_pair_in_chain", "builtin_overridden", "context_shadows_global", "chains", "operation_on_another_thread", "word_used_before_it_became_an_operator"],
         }
     }
@@ -440,8 +446,11 @@ impl Prop for C08 {
         }
         let out = rt.sim(&case, &SchedSpec::Lowest);
         rt.fired("fresh_process", 1);
-        if case.pre.iter().any(|o| matches!(o, Op::OnThread { .. })) {
+        if case.pre.iter().any(|o| matches!(o, Op::OnThread { .. } | Op::OnThreadExit { .. })) {
             rt.probe("operation_on_another_thread");
+        }
+        if case.pre.iter().any(|o| matches!(o, Op::OnThreadExit { .. })) {
+            rt.fired("thread_teardown", 1);
         }
         if case.pre.windows(2).any(|w| matches!((&w[0], &w[1]), (Op::Exec { .. }, o) if o.is_reg())) {
             rt.probe("word_used_before_it_became_an_operator");
